@@ -245,6 +245,7 @@ package cdi
 //@   requires raw != nil
 //@   ensures[C05] iff(err == nil, (specValidator == nil || ExtOK(raw)) && old(RawSpecOK(raw)))
 //@   ensures[C05] implies(err != nil, spec == nil)
+//@   ensures[C16] implies(err == nil, spec.path == NormPath(Clean(path)))
 //@   ensures[C05,C01] implies(err == nil, SpecObjWF(spec))
 //@   ensures[C05,C01] implies(err == nil, spec != nil && fresh(spec) && spec.Spec == raw && spec.priority == priority &&
 //@                        spec.devices != nil && fresh(spec.devices) && len(spec.devices) == len(raw.Devices) &&
@@ -442,6 +443,9 @@ package cdi
 //@ func (c *Cache) highestPrioritySpecDir() (dir string, prio int)
 //@   requires c != nil
 //@   requires excl
+//@   pure
+//@   ensures[C16] implies(len(c.specDirs) == 0, dir == "" && prio == 0 - 1)
+//@   ensures[C16] implies(len(c.specDirs) > 0, dir == c.specDirs[len(c.specDirs)-1] && prio == len(c.specDirs) - 1)
 //@ func (w *watch) setup(dirs []string, dirErrors map[string]error)
 //@   requires w != nil && dirErrors != nil
 //@   requires excl
@@ -575,6 +579,7 @@ package cdi
 //@ func scanSpecDirs$1(path string, info os.FileInfo, err error) (r error)
 //@   invariant scanFn != nil && priority >= 0 && scanMark <= allocNow()
 //@   ensures[C13] r == nil || r == filepath.SkipDir
+//@   assert at call of ReadSpec: SpecExt(path)
 
 //@ func scanSpecDirs(dirs []string, scanFn scanSpecFunc) (err error)
 //@   applies scanFn
@@ -599,12 +604,64 @@ package cdi
 //@   pure
 //@   requires 0 <= i && i < len(m)
 
+// ---------------------------------------------------------------- spec.go name generators (C16)
+// A generated name is one path component: not empty, no separator, neither "." nor "..".
+//@ pred SingleComponent(n string) = OneComponent(n)
+
+//@ func GenerateSpecName(vendor, class string) (name string)
+//@   pure
+//@   ensures[C16] name == vendor + "-" + class
+//@   ensures[C16] implies(VCName(vendor) && VCName(class), SingleComponent(name))
+//@ func GenerateTransientSpecName(vendor, class, transientID string) (name string)
+//@   pure
+//@   ensures[C16] implies(VCName(vendor) && VCName(class), SingleComponent(name))
 //@ func GenerateNameForSpec(raw *cdi.Spec) (name string, err error)
 //@   pure
 //@   requires raw != nil
+//@   ensures[C16] implies(KindOK(raw.Kind), err == nil && SingleComponent(name))
+//@   ensures[C16] implies(err != nil, name == "")
 //@ func GenerateNameForTransientSpec(raw *cdi.Spec, transientID string) (name string, err error)
 //@   pure
 //@   requires raw != nil
+//@   ensures[C16] implies(KindOK(raw.Kind), err == nil && SingleComponent(name))
+//@   ensures[C16] implies(err != nil, name == "")
+
+// ---------------------------------------------------------------- spec.go write, cache.go WriteSpec/RemoveSpec (C10, C16)
+// The file a name denotes, from the statement: directly inside the last configured directory, the name as
+// it is when it ends in .json or .yaml, with .yaml appended otherwise. The same function in both contracts.
+//@ fn TargetPath(dir string, name string) string = ite(SpecExt(name), pjoin(dir, name), pjoin(dir, name + ".yaml"))
+//@ fn LastDir(c *Cache) string = c.specDirs[len(c.specDirs)-1]
+//@ fn NormPath(p string) string = ite(SpecExt(p), p, p + ".yaml")
+
+// write(): at every instant (after every file-system operation) every Spec-named entry of the directory holds
+// its previous content, or - the target only - the complete new content.
+//@ func (s *Spec) write(overwrite bool) (err error)
+//@   requires s != nil && s.Spec != nil
+//@   requires SpecExt(s.path) && Clean(s.path) == s.path
+//@   pure
+//@   ghostwrites fs
+//@   assert after writes of fs: forall(p, string, true, trig(fs[p], implies(Dir(p) == Dir(s.path) && SpecExt(p),
+//@                   fs[p] == old(fs)[p] || (p == s.path && fs[p] == cid(data)))))
+//@   assert at call of json.Marshal: EndsJSON(s.path)
+//@   assert at call of yaml.v3.Marshal: EndsYAML(s.path)
+//@   ensures[C10] implies(err != nil, forall(p, string, true, trig(fs[p], implies(Dir(p) == Dir(s.path) && SpecExt(p), fs[p] == old(fs)[p]))))
+//@   ensures[C10,C16] implies(err == nil, fs[s.path] >= 3 && forall(p, string, true, trig(fs[p],
+//@                   implies(Dir(p) == Dir(s.path) && p != s.path, fs[p] == old(fs)[p]))))
+//@   ensures[C16] forall(p, string, true, trig(fs[p], fs[p] == old(fs)[p] || Dir(p) == Dir(s.path) || (old(fs)[p] == 0 && fs[p] == 1)))
+//@   ensures[C10] implies(err == nil && !overwrite, old(fs)[s.path] == 0)
+
+//@ func renameIn(dir, src, dst string, overwrite bool) (err error)
+//@   pure
+//@   ghostwrites fs
+//@   ensures[C10] implies(err != nil, fs == old(fs))
+//@   ensures[C10] implies(err == nil && pjoin(dir, src) != pjoin(dir, dst),
+//@                   fs == store(store(old(fs), pjoin(dir, dst), old(fs)[pjoin(dir, src)]), pjoin(dir, src), 0))
+//@   ensures[C10] implies(err == nil && pjoin(dir, src) == pjoin(dir, dst), fs == old(fs))
+//@   ensures[C10] implies(err == nil && !overwrite, old(fs)[pjoin(dir, dst)] == 0)
+//@ func renameIn$1()
+//@   requires dirf != nil
+//@   pure
+
 //@ func MinimumRequiredVersion(spec *cdi.Spec) (v string, err error)
 //@   pure
 //@   requires spec != nil
@@ -619,6 +676,27 @@ package cdi
 //@   requires c != nil && CacheRep(c) && OptionsOK(options)
 //@ func (c *Cache) WriteSpec(raw *cdi.Spec, name string) (err error)
 //@   requires c != nil && raw != nil
+//@   ghostwrites fs
+//@   ensures[C16] implies(len(c.specDirs) == 0, err != nil && fs == old(fs))
+//@   ensures[C16] implies(err == nil && SingleComponent(name), len(c.specDirs) > 0 && fs[TargetPath(LastDir(c), name)] >= 3 &&
+//@                   forall(p, string, true, trig(fs[p], implies(Dir(p) == Clean(LastDir(c)) && p != TargetPath(LastDir(c), name), fs[p] == old(fs)[p]))))
+//@   ensures[C16] implies(SingleComponent(name) && len(c.specDirs) > 0, forall(p, string, true, trig(fs[p],
+//@                   fs[p] == old(fs)[p] || Dir(p) == Clean(LastDir(c)) || (old(fs)[p] == 0 && fs[p] == 1))))
+//@   ensures[C10] implies(err != nil && SingleComponent(name) && len(c.specDirs) > 0, forall(p, string, true, trig(fs[p],
+//@                   implies(SpecExt(p) && Dir(p) == Clean(LastDir(c)), fs[p] == old(fs)[p]))))
+//@   assert at call of newSpec: prio == len(c.specDirs) - 1 && specDir == LastDir(c)
+//@   assert at call of newSpec: SpecExt(path)
+//@   assert at call of newSpec: Clean(path) == path
+//@   assert at call of newSpec: implies(SingleComponent(name) && !SpecExt(name), SingleComponent(name + ".yaml"))
+//@   assert at call of newSpec: implies(SingleComponent(name), path == TargetPath(specDir, name))
+//@   assert at call of newSpec: implies(SingleComponent(name), Dir(path) == Clean(specDir))
+//@   assert at call of write: spec.path == path && spec.priority == len(c.specDirs) - 1
+//@ func (c *Cache) RemoveSpec(name string) (err error)
+//@   requires c != nil
+//@   ghostwrites fs
+//@   ensures[C16] implies(len(c.specDirs) == 0, err != nil && fs == old(fs))
+//@   ensures[C16] implies(err == nil && SingleComponent(name), len(c.specDirs) > 0 && fs == store(old(fs), TargetPath(LastDir(c), name), 0))
+//@   ensures[C16] implies(err != nil, fs == old(fs))
 //@ func (c *Cache) GetSpecErrors(spec *Spec) (r []error)
 //@   requires c != nil && spec != nil
 //@ func (c *Cache) ListClasses() (r []string)
